@@ -14,6 +14,7 @@ package main
 // without new functions nothing happens (a parse-only pre-check decides that).
 
 import (
+	"regexp"
 	"bytes"
 	"fmt"
 	"go/ast"
@@ -478,25 +479,28 @@ func normalizePackage(repo, relDir string, p *packages.Package, imp types.Import
 			return
 		}
 		// a local closure the change introduced (`add := func(seg string) { key += seg }` … `add(x)`) is folded
-		// back into its call sites first: each call becomes a call of the literal itself, which is then
-		// flattened like the literals the inliner leaves
-		if inventory["closure:inventory-has-closures"] {
-			if nsrc, desc, did := foldLocalClosure(np, relDir, inventory, src, names, failed); did {
-				trialOK := false
-				if _, err := checkPackage(p.PkgPath, p.Name, names, nsrc.src, imp); err == nil {
-					content, left := flattenNewLiterals(p, names, imp, src, nsrc.file, nsrc.src[names[nsrc.file]])
-					if !left {
-						src[names[nsrc.file]] = content
-						res.Inlined = append(res.Inlined, desc)
-						trialOK = true
-					}
-				}
-				if !trialOK {
-					failed[nsrc.key] = true
-					res.Skipped = append(res.Skipped, desc+": not possible here (call under && / ||, defer in the closure, a captured name shadowed at a call, …): closure kept")
-				}
-				continue
+		// back into its call sites: each call becomes a call of the literal itself, which is then flattened like
+		// the literals the inliner leaves. Done last, once every helper is inlined and every forwarder removed, so
+		// that a closure of the pinned tree is recognised under the function it finally lives in.
+		tryFold := func() bool {
+			if !inventory["closure:inventory-has-closures"] {
+				return false
 			}
+			nsrc, desc, did := foldLocalClosure(np, relDir, inventory, src, names, failed)
+			if !did {
+				return false
+			}
+			if _, err := checkPackage(p.PkgPath, p.Name, names, nsrc.src, imp); err == nil {
+				content, left := flattenNewLiterals(p, names, imp, src, nsrc.file, nsrc.src[names[nsrc.file]])
+				if !left {
+					src[names[nsrc.file]] = content
+					res.Inlined = append(res.Inlined, desc)
+					return true
+				}
+			}
+			failed[nsrc.key] = true
+			res.Skipped = append(res.Skipped, desc+": not possible here (call under && / ||, defer in the closure, a captured name shadowed at a call, …): closure kept")
+			return true
 		}
 		// new function declarations
 		decls := map[*types.Func]*ast.FuncDecl{}
@@ -518,6 +522,9 @@ func normalizePackage(repo, relDir string, p *packages.Package, imp types.Import
 			}
 		}
 		if len(decls) == 0 {
+			if tryFold() {
+				continue
+			}
 			break
 		}
 		// a function whose whole body forwards its parameters to a new function that nobody else uses is
@@ -621,6 +628,9 @@ func normalizePackage(repo, relDir string, p *packages.Package, imp types.Import
 				})
 			}
 		}
+		if best == nil && tryFold() {
+			continue
+		}
 		if best == nil {
 			// nothing left to inline: delete new functions nobody refers to any more, then stop
 			used := map[types.Object]bool{}
@@ -709,6 +719,18 @@ func normalizePackage(repo, relDir string, p *packages.Package, imp types.Import
 		}
 		how := ""
 		content := out.Content
+		// The inliner binds a parameter with `var s *T = s` in front of the inlined statements when the argument
+		// has the parameter's name; placed in the caller's block, that declaration also captures the caller's
+		// later uses of s (`park(s); s = &T{}` would assign the copy). The inlined statements of a call that stood
+		// as a statement are therefore put in a block of their own; in any other position such a binding makes
+		// the step be refused.
+		if fixed, ok := guardSelfShadow(np, best.file, best.call, src[names[best.file]], content); !ok {
+			failed[best.callee.FullName()+"@"+best.encl] = true
+			res.Skipped = append(res.Skipped, fmt.Sprintf("%s in %s: the inliner's parameter binding would shadow a variable of the caller: call kept", best.callee.FullName(), best.encl))
+			continue
+		} else {
+			content = fixed
+		}
 		if out.Literalized {
 			how = " (as a function literal)"
 			// flatten the literal(s) the inliner introduced; literals that were there before stay
@@ -749,6 +771,23 @@ func normalizePackage(repo, relDir string, p *packages.Package, imp types.Import
 				// (counted, not compared by text: the text of a literal that was there before changes
 				// when something is inlined inside it; the operands of go and defer are not counted)
 				left = len(findIIFEsAll(f1)) > len(before)
+			}
+			if left {
+				// a predicate helper under && / || (`end != nil && reached(now, *end)`): a callee that is one returned
+				// expression over its parameters is substituted as an expression when the arguments are plain
+				// reads (no calls) of exactly the parameters' types
+				if sub, ok := substituteExprCall(np, best.file, best.call, calleeDecl, src[names[declFile[best.callee]]], src[names[best.file]]); ok {
+					trial := map[string][]byte{}
+					for n, b := range src {
+						trial[n] = b
+					}
+					trial[names[best.file]] = sub
+					if _, err := checkPackage(p.PkgPath, p.Name, names, trial, imp); err == nil {
+						res.Inlined = append(res.Inlined, fmt.Sprintf("%s into %s (returned expression substituted)", best.callee.FullName(), best.encl))
+						src[names[best.file]] = sub
+						continue
+					}
+				}
 			}
 			if left {
 				failed[best.callee.FullName()+"@"+best.encl] = true
@@ -1676,4 +1715,230 @@ func foldDebug(key, why string) {
 	if os.Getenv("VERIF_DEBUG") == "fold" {
 		fmt.Fprintf(os.Stderr, "fold: %s: %s\n", key, why)
 	}
+}
+
+
+var selfBinding = regexp.MustCompile(`(?m)^\s*(?:var\s+)?([A-Za-z_][A-Za-z_0-9]*)\s+[^=\n]*=\s*([A-Za-z_][A-Za-z_0-9]*)\s*$`)
+
+// guardSelfShadow: see the call site. old/new are the file before and after the inlining of call.
+func guardSelfShadow(np *npkg, file int, call *ast.CallExpr, old, new []byte) ([]byte, bool) {
+	// the statement the call stands in
+	var stmt ast.Stmt
+	ast.Inspect(np.files[file], func(n ast.Node) bool {
+		if s, ok := n.(ast.Stmt); ok && s.Pos() <= call.Pos() && call.End() <= s.End() {
+			switch s.(type) {
+			case *ast.BlockStmt, *ast.IfStmt, *ast.ForStmt, *ast.RangeStmt, *ast.SwitchStmt, *ast.TypeSwitchStmt, *ast.SelectStmt, *ast.CaseClause, *ast.CommClause, *ast.LabeledStmt:
+			default:
+				if stmt == nil || (s.Pos() >= stmt.Pos() && s.End() <= stmt.End()) {
+					stmt = s
+				}
+			}
+		}
+		return true
+	})
+	if stmt == nil {
+		return new, true
+	}
+	lo := np.fset.Position(stmt.Pos()).Offset
+	hi := np.fset.Position(stmt.End()).Offset
+	tail := len(old) - hi
+	if lo > len(new) || len(new)-tail < lo || !bytes.Equal(old[:lo], new[:lo]) || !bytes.Equal(old[hi:], new[len(new)-tail:]) {
+		// imports were added or the edit is not confined to the statement: look at the whole file for a new
+		// self-binding that the old file did not have
+		if countSelfBindings(new) > countSelfBindings(old) {
+			return new, false
+		}
+		return new, true
+	}
+	region := new[lo : len(new)-tail]
+	has := false
+	for _, m := range selfBinding.FindAllSubmatch(region, -1) {
+		if bytes.Equal(m[1], m[2]) {
+			has = true
+		}
+	}
+	if !has {
+		return new, true
+	}
+	es, isExprStmt := stmt.(*ast.ExprStmt)
+	if !isExprStmt || es.X != ast.Expr(call) {
+		return new, false
+	}
+	var out bytes.Buffer
+	out.Write(new[:lo])
+	out.WriteString("{\n")
+	out.Write(region)
+	out.WriteString("\n}")
+	out.Write(new[len(new)-tail:])
+	return out.Bytes(), true
+}
+
+func countSelfBindings(b []byte) int {
+	n := 0
+	for _, m := range selfBinding.FindAllSubmatch(b, -1) {
+		if bytes.Equal(m[1], m[2]) {
+			n++
+		}
+	}
+	return n
+}
+
+
+// substituteExprCall: the call replaced by the callee's only returned expression with the arguments in place of the
+// parameters. The same computation when every argument is a plain read (identifiers, field selections,
+// dereferences, literals - nothing with an effect, so evaluating it where the parameter is used, or twice, or not at
+// all on a short-circuited path, changes nothing but which nil dereference is met first), has exactly the
+// parameter's type (no conversion to an interface is lost), the parameters are not assigned, and every other name
+// in the expression means the same at the call.
+func substituteExprCall(np *npkg, file int, call *ast.CallExpr, callee *ast.FuncDecl, calleeSrc, callerSrc []byte) ([]byte, bool) {
+	if callee.Body == nil || len(callee.Body.List) != 1 || call.Ellipsis != token.NoPos {
+		return nil, false
+	}
+	ret, ok := callee.Body.List[0].(*ast.ReturnStmt)
+	if !ok || len(ret.Results) != 1 || callee.Type.Results == nil || callee.Type.Results.NumFields() != 1 {
+		return nil, false
+	}
+	expr := ret.Results[0]
+	off := func(p token.Pos) int { return np.fset.Position(p).Offset }
+	var pure func(e ast.Expr) bool
+	pure = func(e ast.Expr) bool {
+		switch x := e.(type) {
+		case *ast.Ident, *ast.BasicLit:
+			return true
+		case *ast.SelectorExpr:
+			return pure(x.X)
+		case *ast.StarExpr:
+			return pure(x.X)
+		case *ast.ParenExpr:
+			return pure(x.X)
+		case *ast.UnaryExpr:
+			return (x.Op == token.AND || x.Op == token.SUB || x.Op == token.NOT) && pure(x.X)
+		}
+		return false
+	}
+	// parameters (receiver first) and their arguments
+	argOf := map[types.Object]string{}
+	bind := func(name *ast.Ident, arg ast.Expr) bool {
+		if !pure(arg) {
+			return false
+		}
+		if name == nil || name.Name == "_" {
+			return true
+		}
+		obj := np.info.Defs[name]
+		if obj == nil {
+			return false
+		}
+		at := np.info.TypeOf(arg)
+		if at == nil || !types.Identical(at, obj.Type()) {
+			return false
+		}
+		argOf[obj] = "(" + string(callerSrc[off(arg.Pos()):off(arg.End())]) + ")"
+		return true
+	}
+	if callee.Recv != nil {
+		sel, ok := call.Fun.(*ast.SelectorExpr)
+		if !ok || len(callee.Recv.List) != 1 {
+			return nil, false
+		}
+		var rn *ast.Ident
+		if len(callee.Recv.List[0].Names) == 1 {
+			rn = callee.Recv.List[0].Names[0]
+		}
+		if !bind(rn, sel.X) {
+			return nil, false
+		}
+	}
+	var params []*ast.Ident
+	if callee.Type.Params != nil {
+		for _, fld := range callee.Type.Params.List {
+			if _, variadic := fld.Type.(*ast.Ellipsis); variadic {
+				return nil, false
+			}
+			if len(fld.Names) == 0 {
+				params = append(params, nil)
+			}
+			params = append(params, fld.Names...)
+		}
+	}
+	if len(params) != len(call.Args) {
+		return nil, false
+	}
+	for i, pn := range params {
+		if !bind(pn, call.Args[i]) {
+			return nil, false
+		}
+	}
+	// the result keeps its type
+	if rt := np.info.TypeOf(callee.Type.Results.List[0].Type); rt == nil || np.info.TypeOf(expr) == nil || !types.Identical(rt, np.info.TypeOf(expr)) {
+		return nil, false
+	}
+	// rewrite the expression
+	type edit struct {
+		lo, hi int
+		text   string
+	}
+	var edits []edit
+	okExpr := true
+	ast.Inspect(expr, func(n ast.Node) bool {
+		switch x := n.(type) {
+		case *ast.FuncLit:
+			okExpr = false
+			return false
+		case *ast.UnaryExpr:
+			if x.Op == token.AND {
+				if id, isId := x.X.(*ast.Ident); isId {
+					if _, isParam := argOf[np.info.Uses[id]]; isParam {
+						okExpr = false // the address of the parameter's own copy
+					}
+				}
+			}
+		case *ast.Ident:
+			o := np.info.Uses[x]
+			if o == nil {
+				return true
+			}
+			if a, isParam := argOf[o]; isParam {
+				edits = append(edits, edit{off(x.Pos()), off(x.End()), a})
+				return true
+			}
+			if o.Pkg() == nil || o.Parent() == nil {
+				return true // universe, fields, methods
+			}
+			if _, isPkgName := o.(*types.PkgName); !isPkgName && o.Pkg() != np.tpkg {
+				return true
+			}
+			inner := np.tpkg.Scope().Innermost(call.Pos())
+			if inner == nil {
+				okExpr = false
+				return true
+			}
+			_, found := inner.LookupParent(x.Name, call.Pos())
+			if pn, isPkgName := o.(*types.PkgName); isPkgName {
+				fp, isP := found.(*types.PkgName)
+				if !isP || fp.Imported() != pn.Imported() {
+					okExpr = false
+				}
+			} else if found != o {
+				okExpr = false
+			}
+		}
+		return true
+	})
+	if !okExpr {
+		return nil, false
+	}
+	lo, hi := off(expr.Pos()), off(expr.End())
+	text := append([]byte{}, calleeSrc[lo:hi]...)
+	sort.Slice(edits, func(i, j int) bool { return edits[i].lo > edits[j].lo })
+	for _, e := range edits {
+		text = append(append(append([]byte{}, text[:e.lo-lo]...), []byte(e.text)...), text[e.hi-lo:]...)
+	}
+	var out bytes.Buffer
+	out.Write(callerSrc[:off(call.Pos())])
+	out.WriteString("(")
+	out.Write(text)
+	out.WriteString(")")
+	out.Write(callerSrc[off(call.End()):])
+	return out.Bytes(), true
 }
